@@ -95,7 +95,11 @@ pub fn guarded<R>(f: impl FnOnce() -> R) -> Result<R, (String, String)> {
 /// strip line numbers' volatility a little: keep file and line (signature of a
 /// panic site); paths under /repo are made relative.
 pub fn norm_loc(loc: &str) -> String {
-    loc.trim_start_matches("/repo/").to_string()
+    // path dependencies are reached through the symlink starsim/repo -> /repo (or a snapshot)
+    match loc.find("repo/") {
+        Some(i) if loc[..i].chars().all(|c| c == '/' || c == '.' ) || loc[..i].ends_with("starsim/") || i == 0 => loc[i + 5..].to_string(),
+        _ => loc.trim_start_matches("/repo/").to_string(),
+    }
 }
 
 // ---------------------------------------------------------------------------
